@@ -186,6 +186,25 @@ def _shard_entry(args):
         return ("err", "shard %r: %s" % (desc, traceback.format_exc()))
 
 
+def _nestable_pool(n):
+    """a fork pool whose workers may themselves start processes (the forking-server checks need that)"""
+    import multiprocessing.pool
+
+    class NoDaemonProcess(multiprocessing.context.ForkProcess):
+        @property
+        def daemon(self):
+            return False
+
+        @daemon.setter
+        def daemon(self, value):
+            pass
+
+    class NoDaemonContext(type(multiprocessing.get_context("fork"))):
+        Process = NoDaemonProcess
+
+    return multiprocessing.pool.Pool(n, maxtasksperchild=1, context=NoDaemonContext())
+
+
 def validate_evidence(ev):
     for k in ("property_id", "tier", "seed", "level", "coverage", "wall_s"):
         if k not in ev:
@@ -243,8 +262,7 @@ def main(argv=None):
         if args.jobs <= 1 or len(jobs) == 1:
             results = [_shard_entry(j) for j in jobs]
         else:
-            ctx = multiprocessing.get_context("fork")
-            with ctx.Pool(min(args.jobs, len(jobs)), maxtasksperchild=1) as pool:
+            with _nestable_pool(min(args.jobs, len(jobs))) as pool:
                 results = pool.map(_shard_entry, jobs, chunksize=1)
         for status, payload in results:
             if status == "ok":
